@@ -106,6 +106,43 @@ type pmEnv struct {
 	early     []uint64 // frames passed to mapFn = frames consumed by the early allocator
 	log       strings.Builder
 	reserveSz []uintptr
+	// what Init maps through the regions it reserved: page numbers per reservation
+	// (index into reserved), and pages that lie in none of them
+	mapped    [][]uint64
+	stray     []uint64
+}
+
+// mappingVerdict checks "maps exactly the pages needed to cover the requested
+// size" for the regions Init reserved: every page of ceil(size/4096) once,
+// nothing else.
+func (env *pmEnv) mappingVerdict() string {
+	if len(env.stray) > 0 {
+		where := "no region was reserved"
+		if len(env.reserved) > 0 {
+			last := len(env.reserved) - 1
+			first := int64(uint64(vlib.AddrOf(env.reserved[last])) >> 12)
+			where = fmt.Sprintf("page %+d relative to the start of the %d-page region reserved last (%#x bytes requested)",
+				int64(env.stray[0])-first, len(env.reserved[last])>>12, uint64(env.reserveSz[last]))
+		}
+		return fmt.Sprintf("mapped a page which lies outside every region it reserved: %s; the harness refused the mapping", where)
+	}
+	for i, mem := range env.reserved {
+		first := uint64(vlib.AddrOf(mem)) >> 12
+		need := (uint64(env.reserveSz[i]) + 4095) >> 12
+		seen := map[uint64]int{}
+		for _, p := range env.mapped[i] {
+			seen[p]++
+		}
+		for k := uint64(0); k < need; k++ {
+			if n := seen[first+k]; n != 1 {
+				return fmt.Sprintf("reserved %#x bytes (%d pages) but mapped page %d of the region %d times", uint64(env.reserveSz[i]), need, k, n)
+			}
+		}
+		if uint64(len(env.mapped[i])) != need {
+			return fmt.Sprintf("reserved %#x bytes (%d pages) but made %d mappings inside the region", uint64(env.reserveSz[i]), need, len(env.mapped[i]))
+		}
+	}
+	return ""
 }
 
 type pmLogSink struct{ env *pmEnv }
@@ -141,10 +178,23 @@ func pmSetup(c pmCase) *pmEnv {
 			mem[i] = 0xA5
 		}
 		env.reserved = append(env.reserved, mem)
+		env.mapped = append(env.mapped, nil)
 		return vlib.AddrOf(mem), nil
 	}
 	tablesLeft := c.Tables
-	mapFn = func(_ mm.Page, f mm.Frame, _ vmm.PageTableEntryFlag) *kernel.Error {
+	mapFn = func(pg mm.Page, f mm.Frame, _ vmm.PageTableEntryFlag) *kernel.Error {
+		in := -1
+		for i, mem := range env.reserved {
+			if first := uint64(vlib.AddrOf(mem)) >> 12; uint64(pg) >= first && uint64(pg) < first+uint64(len(mem))>>12 {
+				in = i
+			}
+		}
+		if in < 0 {
+			// not backed by host memory: refuse, so that nothing is written there
+			env.stray = append(env.stray, uint64(pg))
+			return pmErrNoVirt
+		}
+		env.mapped[in] = append(env.mapped[in], uint64(pg))
 		env.early = append(env.early, uint64(f))
 		// the real vmm.Map allocates frames for missing page-table levels from the same
 		// (early) allocator: simulate that on the first call
@@ -304,6 +354,11 @@ func pmGenKernel(t *rapid.T, regs []pmRegion) (ks, ke uint64, where string, ok b
 	// kernel end: somewhere in the last kernel frame (exclusive end address)
 	ke = last<<12 + uint64(rapid.SampledFrom([]int{1, 0x800, 0xfff, 0x1000}).Draw(t, "ktail"))
 	regEnd := r.Addr + r.Len
+	if tail := regEnd - (e+1)<<12; last == e && tail > 0 && tail < 4096 && rapid.IntRange(0, 2).Draw(t, "kintotail") == 0 {
+		// the image ends inside the partial page behind the region's last whole frame
+		ke = (e+1)<<12 + uint64(rapid.IntRange(1, int(tail)).Draw(t, "ktailbytes"))
+		where += "+partial-tail-page"
+	}
 	if ke > regEnd {
 		ke = regEnd
 	}
